@@ -798,6 +798,22 @@ def fftMulInvIntoRef? (A : Arith K) (a b : Array Int) (n : Nat) (res : List Int)
     | .error e => .error e
     | .ok fb => fftInvIntoRef? A (pointwise A fa fb) res
 
+/-- the forward transforms of all operands as a function of the arguments only -/
+def fftAllRef? (A : Arith K) : List (Array Int) → Nat → Except Panic (List (Array K))
+  | [], _ => .ok []
+  | v :: vs, n =>
+    match fftIntoRef? A v n (Array.replicate (fftSize v.size n) A.zero) with
+    | .error e => .error e
+    | .ok f =>
+      match fftAllRef? A vs n with
+      | .error e => .error e
+      | .ok fs => .ok (f :: fs)
+
+def spectralRef? (A : Arith K) (e : SExpr) (vs : List (Array Int)) (n : Nat) (res : List Int) : Except Panic (List Int) :=
+  match fftAllRef? A vs n with
+  | .error e' => .error e'
+  | .ok fs => fftInvIntoRef? A (spectrum A e fs n) res
+
 /-- The result of a call as a function of its arguments only. -/
 def resultRef (A : Arith K) : Op K → Except Panic (Out K)
   | .updateN n => if n = 0 then .error .overflow else if !isPow2 n then .error .assert else .ok .unit
@@ -810,6 +826,7 @@ def resultRef (A : Arith K) : Op K → Except Panic (Out K)
   | .fftMulInv a b n => (fftMulInvRef? A a b n).map .ints
   | .fftMulInvFresh a b n => (fftMulInvRef? A a b n).map .ints
   | .fftMulInvInto a b n res => (fftMulInvIntoRef? A a b n res).map .ints
+  | .spectral e vs n res => (spectralRef? A e vs n res).map .ints
 
 theorem updateN?_reach (A : Arith K) (s : State K) (hs : Reach A s) (n : Nat) :
     (updateN? A s n = if n = 0 then .error .overflow else if !isPow2 n then .error .assert else .ok (updateNCore A s n))
@@ -920,6 +937,32 @@ theorem fftMulInvInto?_reach (A : Arith K) (s : State K) (hs : Reach A s) (a b :
       simp only []
       exact fftInvInto?_reach A s2 hr2 (pointwise A fa fb) res
 
+theorem fftAll?_reach (A : Arith K) (vs : List (Array Int)) (n : Nat) : ∀ (s : State K), Reach A s →
+    (∃ e, fftAll? A s vs n = .error e ∧ fftAllRef? A vs n = .error e) ∨
+    (∃ s' r, fftAll? A s vs n = .ok (s', r) ∧ fftAllRef? A vs n = .ok r ∧ Reach A s') := by
+  induction vs with
+  | nil => intro s hs; exact Or.inr ⟨s, [], rfl, rfl, hs⟩
+  | cons v vs ih =>
+    intro s hs
+    unfold fftAll? fftAllRef? fft?
+    rcases fftInto?_reach A s hs v n (Array.replicate (fftSize v.size n) A.zero) with ⟨e, h1, h2⟩ | ⟨s1, f, h1, h2, hr1⟩
+    · rw [h1, h2]; exact Or.inl ⟨_, rfl, rfl⟩
+    · rw [h1, h2]
+      simp only []
+      rcases ih s1 hr1 with ⟨e, h3, h4⟩ | ⟨s2, fs, h3, h4, hr2⟩
+      · rw [h3, h4]; exact Or.inl ⟨_, rfl, rfl⟩
+      · rw [h3, h4]; exact Or.inr ⟨_, _, rfl, rfl, hr2⟩
+
+theorem spectral?_reach (A : Arith K) (s : State K) (hs : Reach A s) (e : SExpr) (vs : List (Array Int)) (n : Nat) (res : List Int) :
+    (∃ e', spectral? A s e vs n res = .error e' ∧ spectralRef? A e vs n res = .error e') ∨
+    (∃ s' r, spectral? A s e vs n res = .ok (s', r) ∧ spectralRef? A e vs n res = .ok r ∧ Reach A s') := by
+  unfold spectral? spectralRef?
+  rcases fftAll?_reach A vs n s hs with ⟨e', h1, h2⟩ | ⟨s1, fs, h1, h2, hr1⟩
+  · rw [h1, h2]; exact Or.inl ⟨_, rfl, rfl⟩
+  · rw [h1, h2]
+    simp only []
+    exact fftInvInto?_reach A s1 hr1 _ res
+
 /-- Every call on a reachable object returns what `resultRef` says (a function of the arguments
     only), and leaves a reachable object. -/
 theorem call_reach (A : Arith K) (s : State K) (hs : Reach A s) (op : Op K) :
@@ -977,6 +1020,11 @@ theorem call_reach (A : Arith K) (s : State K) (hs : Reach A s) (op : Op K) :
   | fftMulInvInto a b n res =>
     simp only [call, resultRef]
     rcases fftMulInvInto?_reach A s hs a b n res with ⟨e, h1, h2⟩ | ⟨s1, r, h1, h2, hr⟩
+    · rw [h1, h2]; exact ⟨rfl, hs⟩
+    · rw [h1, h2]; exact ⟨rfl, hr⟩
+  | spectral e vs n res =>
+    simp only [call, resultRef]
+    rcases spectral?_reach A s hs e vs n res with ⟨e', h1, h2⟩ | ⟨s1, r, h1, h2, hr⟩
     · rw [h1, h2]; exact ⟨rfl, hs⟩
     · rw [h1, h2]; exact ⟨rfl, hr⟩
 
@@ -1044,5 +1092,39 @@ theorem multiply_length (A : Arith K) (s : State K) (a b : Array Int) (ha : a.si
     (multiply A s a b).2.length = a.size + b.size - 1 := by
   unfold multiply
   rw [if_neg (by omega), multiplyInto_length, List.length_replicate]
+
+/-! ### several objects alive at the same time -/
+
+/-- every object of the pool has canonical tables -/
+def PoolOk (A : Arith K) (pool : Array (State K)) : Prop := ∀ i, Reach A (pool.getD i (new A))
+
+theorem poolOk_set (A : Arith K) (pool : Array (State K)) (h : PoolOk A pool) (k : Nat) (v : State K) (hv : Reach A v) :
+    PoolOk A (pool.setIfInBounds k v) := by
+  intro i
+  have := h i
+  rw [Array.getD_eq_getD_getElem?] at this ⊢
+  rw [Array.getElem?_setIfInBounds]
+  split
+  · split
+    · exact hv
+    · simp only [Option.getD_none]; exact reach_new A
+  · exact this
+
+theorem poolStep_ok (A : Arith K) (pool : Array (State K)) (h : PoolOk A pool) (op : PoolOp K) :
+    PoolOk A (poolStep A pool op) := by
+  cases op with
+  | call k op => exact poolOk_set A pool h k _ (call_reach A _ (h k) op).2
+  | clone src dst => exact poolOk_set A pool h dst _ (by rw [clone_eq]; exact h src)
+  | cloneFrom src dst => exact poolOk_set A pool h dst _ (by rw [clone_eq]; exact h src)
+  | default dst => exact poolOk_set A pool h dst _ (reach_new A)
+  | fresh dst => exact poolOk_set A pool h dst _ (reach_new A)
+  | take src dst => exact poolOk_set A _ (poolOk_set A pool h src _ (reach_new A)) dst _ (h src)
+
+theorem poolAfter_ok (A : Arith K) (prog : List (PoolOp K)) : ∀ (pool : Array (State K)), PoolOk A pool →
+    PoolOk A (poolAfter A pool prog) := by
+  unfold poolAfter
+  induction prog with
+  | nil => intro pool h; exact h
+  | cons op prog ih => intro pool h; exact ih _ (poolStep_ok A pool h op)
 
 end Rlib.Fft
